@@ -227,7 +227,7 @@ class Writer:
         """
         for word in data:
             if word < 0 or word >= (1 << self.word_size):
-                raise FlipJumpWriteFjmException(f"data word {word} doesn't fit in {self.word_size} bits.")
+                raise FlipJumpWriteFjmException(f"data word {hex(word)} doesn't fit in {self.word_size} bits.")
         data_start = len(self.data)
         self.data += data
         return data_start
